@@ -9,17 +9,18 @@ LEVEL = "proof"
 RULE = ("kinds: mcmc (the real batchie.sampling.sample driving a counting stub MCMCModel and a recording ThetaHolder; grid "
         "b in {0..}, t in {1..}, n in {1..} incl. t=1 and b=0, plus random larger values, random seed / n_chains / chain_index; "
         "the full event trace reset/set_rng(key)/step/add_theta is compared with the model's), vi (stub VIModel, returned list "
-        "length = n mostly), rng (key of the generator handed to the model and its first draws per (seed, n_chains, chain_index); also "
+        "length = n mostly, random n_chains / chain_index; trace reset/set_rng(key (seed,[chain_index]))/sample(n)/n records), rng (key of the generator handed to the model and its first draws per (seed, n_chains, chain_index); also "
         "for a model object that already carries a generator, and for the second sample() call on one object), "
         "malformed (t<=0, b<0, n<=0, index out of range or negative, negative seed, None arguments, pre-filled or short holder, "
-        "non-model object).  Non-trivial: every case that issues at least one step or record; distinct by case description.  "
+        "non-model object; for vi: None n_chains / chain_index, index out of range, negative seed, wrong returned length).  Non-trivial: every case that issues at least one step or record; distinct by case description.  "
         "ADDED (gap review g5): real (every concrete MCMCModel class shipped in batchie.models - SparseDrugCombo, SparseDrugComboInteraction - "
         "built on a small real Screen with observations added; sample() twice on ONE object; the call trace of the first run is compared with "
         "the model's; predicates: steps taken = b + n*t, the thetas found in the holder AT THE END equal copies of get_model_state() taken "
         "right after steps b+t, ..., b+n*t (recorded states are snapshots, not views of arrays the sampler keeps writing to), and RESETS THE "
         "MODEL: every numeric / array attribute of the sampler object at the moment reset_model() has returned inside sample() equals its value "
         "after construction + add_observations); rng with model=vi (clauses e / f of the generator on the VIModel stub, n_chains > 1, trace "
-        "compared with the model's VI branch); rng cases also compare the full bit_generator.state (128-bit state + increment) of the handed "
+        "compared with the model's VI branch; JUDGED since the repair of vi-chains-share-generator: key (seed,[chain_index]), full PCG64 state of "
+        "SeedSequence(seed, spawn_key=(chain_index,)), the same stream as an MCMC model gets, independent of n_chains, pairwise different over all chains); rng cases also compare the full bit_generator.state (128-bit state + increment) of the handed "
         "generator with PCG64(SeedSequence(seed, spawn_key=(chain_index,))) and require pairwise different (state, inc) over all chains; "
         "mcmc with model=mutable (stub whose state is one ndarray updated in place by step(), get_model_state returning a copy: stored values "
         "read at the END of the run); a tenth of the mcmc cases run with progress_bar=True (tqdm wrapping the two ranges).")
@@ -33,13 +34,17 @@ THEOREMS = {
     "C17_key_fun": "rng_key = (entropy seed, spawn_key [chain_index]) for 0 <= chain_index < n_chains: a function of the triple, n_chains only bounds the index",
     "C17_key_injective": "equal keys for chain indices within range (same or different seeds / n_chains) force equal seed and chain index",
     "C17_streams_distinct_partial": "different chain indices get different SeedSequence keys; PARTIAL: that different keys yield non-overlapping PCG64 streams is numpy's guarantee, checked only on first draws by the harness",
-    "C17_vi_once": "VI branch: Reset, SetRng(seed,[]), one SampleVI n, then n Records; holder complete",
+    "C17_vi_once": "VI branch, 0 <= chain_index < n_chains: Reset, SetRng(seed,[chain_index]), one SampleVI n, then n Records; holder complete; n_burnin / thin ignored",
     "C17_not_a_model_refused": "an object that is neither MCMCModel nor VIModel is refused",
     "C17_none_refused": "a None among n_chains, chain_index, n_burnin, thin is refused for MCMC models",
+    "C17_vi_none_refused": "a None for n_chains or chain_index is refused for VI models (the generator is derived from them since the repair)",
     "C17_mcmc_chains_distinct_partial": "MCMC models, whole runs: two successful sample() runs with different chain indices below n_chains hand different SeedSequence keys to set_rng, whatever b, t, n and the holders are (PARTIAL: keys, not streams)",
-    "C17_vi_generator_ignores_chain": "VI models: sample() does not read n_chains / chain_index / n_burnin / thin at all - the whole run is the same for every value of them",
-    "C17_vi_handed_key": "VI models: the generator handed over is default_rng(seed), key (seed, [])",
-    "C17_vi_streams_distinct_refuted": "REFUTED, a finding: for a VI model the clause 'a different stream for every other chain index' fails inside the quantifier (seed 0, n_chains 2, indices 0 and 1): both runs hand the same key; replayed on the implementation by kind rng model=vi (KNOWN_FINDINGS vi-chains-share-generator)",
+    "C17_vi_key_in_trace": "VI models (repaired code): whatever n, the holder and the returned count are, a successful run is Reset, SetRng(rng_key seed n_chains chain_index), one SampleVI n, then only records",
+    "C17_vi_handed_key": "VI models: the generator handed over has the key rng_key seed n_chains chain_index = SeedSequence(seed).spawn(n_chains)[chain_index]",
+    "C17_vi_chains_distinct_partial": "VI models, whole runs: two successful sample() runs with different chain indices below n_chains hand different SeedSequence keys to set_rng (PARTIAL: keys, not streams); the positive statement that replaced the refutation",
+    "C17_vi_key_as_mcmc": "the same (seed, n_chains, chain_index) gives a VI model and an MCMC model the same key",
+    "C17_vi_ignores_schedule": "VI models: n_burnin and thin are not read - the whole run is the same for every value of them",
+    "C17_vi_streams_distinct_refuted": "REFUTED for the PRE-REPAIR variant only (Model.Sampling.sample_pre_repair, default_rng(seed) for every chain; no longer what the source says): seed 0, n_chains 2, indices 0 and 1 handed the same key; the defect was repaired in /repo (KNOWN_FINDINGS vi-chains-share-generator: fixed), the witness runs first on every check as corpus/C17/vi-chains-share-generator.json",
     "C17_real_reset_is_source": "what 'resets the model' does on the real sampler: the Gallina translation of the whole method LegacySparseDrugComboImpl.reset_model, regenerated from /repo on this run, equals the model reset_st (W, W0, V2, V1, V0 zeroed, alpha 0, prec 100, Mu emptied; nothing else assigned)",
     "C17_real_reset_restores_embeddings_partial": "PARTIAL: on a state with the shapes __init__ allocates, reset restores exactly the constructed W, W0, V2, V1, V0, alpha, prec, Mu",
     "C17_real_reset_keeps_precisions": "the translated reset_model leaves tau, tau0, phi2, phi1, phi0, eta2, eta1, eta0, gam and num_mcmc_steps at the values the previous chain left",
@@ -65,8 +70,10 @@ EXPLANATION = ("Tie to the code, two ways: (1) the whole function sample is re-t
                "reset_model DOES on the real sampler is tied to the source by C17_real_reset_is_source (translation of LegacySparseDrugComboImpl.reset_model) and "
                "observed by kind real: it restores the embeddings W, W0, V2, V1, V0, alpha, prec and the cache Mu and KEEPS the horseshoe / gamma-process "
                "precisions phi*, eta*, tau, tau0, gam and the step counter (C17_real_reset_keeps_precisions, C17_real_reset_restores_refuted; KNOWN_FINDINGS "
-               "reset-model-keeps-hyperparameters).  VI models get default_rng(seed) whatever n_chains / chain_index are (C17_vi_generator_ignores_chain, "
-               "C17_vi_streams_distinct_refuted; KNOWN_FINDINGS vi-chains-share-generator).")
+               "reset-model-keeps-hyperparameters).  VI models used to get default_rng(seed) whatever n_chains / chain_index were; repaired in /repo "
+               "(KNOWN_FINDINGS vi-chains-share-generator: fixed): the VI branch derives the generator as the MCMC branch does, the linked model says so "
+               "(C17_vi_key_in_trace, C17_vi_chains_distinct_partial, C17_vi_key_as_mcmc), the old behaviour survives only as sample_pre_repair in "
+               "C17_vi_streams_distinct_refuted, and kind rng model=vi judges the clause on the real function (no signature folds it any more).")
 
 
 class _Other:
@@ -163,7 +170,8 @@ def gen(rng, tier):
         yield d
     for _ in range(60 if not big else 600):
         n = rng.randint(1, 30)
-        yield dict(kind="vi", seed=rng.choice([0, rng.randrange(1 << 40)]), n=n, returned=n, len0=0)
+        nc = rng.randint(1, 8)
+        yield dict(kind="vi", seed=rng.choice([0, rng.randrange(1 << 40)]), n=n, returned=n, len0=0, nc=nc, ci=rng.randrange(nc))
     for _ in range(120 if not big else 1200):
         nc = rng.randint(1, 12)
         yield dict(kind="rng", seed=rng.choice([0, 1, 2, rng.randrange(1 << 20), rng.randrange(1 << 64)]), nc=nc, ci=rng.randrange(nc))
@@ -220,9 +228,14 @@ def gen(rng, tier):
         elif w == "other":
             d["model"] = "other"
         yield d
-    for _ in range(40 if not big else 300):
+    for _ in range(60 if not big else 450):
         n = rng.randint(0, 6)
-        yield dict(kind="vi", seed=rng.choice([0, 5, -1]), n=n, returned=rng.choice([n, n, max(0, n - 1), n + 1, 0]), len0=rng.choice([0, 0, 1]), malformed=True)
+        nc = rng.randint(1, 4)
+        ci = rng.randrange(nc)
+        if rng.random() < 0.3:      # the two arguments the VI branch reads since the repair
+            nc, ci = rng.choice([(0, 0), (0, -1), (-1, 0), (None, 0), (nc, None), (None, None), (nc, nc), (nc, nc + 1), (nc, -1), (nc, -nc), (nc, -nc - 1)])
+        yield dict(kind="vi", seed=rng.choice([0, 5, -1]), n=n, returned=rng.choice([n, n, max(0, n - 1), n + 1, 0]), len0=rng.choice([0, 0, 1]),
+                   nc=nc, ci=ci, malformed=True)
 
 
 REAL_MODELS = ["SparseDrugCombo", "SparseDrugComboInteraction"]
@@ -426,23 +439,37 @@ def run(desc):
             return m, [list(m.events), len(h.thetas)], st
 
         res = impl_call(go)
-        pred, sig = None, None
+        pred = None
         if isinstance(res, ImplError):
             out = res
             pred = "VI sampling raised %r" % (res,)
         else:
             m, out, st = res
-            if handed_vi(seed, nc, ci)[2] != st:
+            want = dict(np.random.PCG64(np.random.SeedSequence(seed, spawn_key=(ci,))).state["state"])
+            # what an MCMC model is handed for the same triple: one rule for every model class
+            mm = M()
+            batchie.sampling.sample(model=mm, results=Holder(1, mm.events), seed=seed, n_chains=nc, chain_index=ci, n_burnin=0, thin=1)
+            if out[0][:2] != [[0], [1, seed, [ci]]]:
+                pred = "VI trace does not start with reset, set_rng(SeedSequence(seed).spawn(n_chains)[chain_index]): %r" % (out[0][:2],)
+            elif st != want:
+                pred = "the generator handed to the VI model is not PCG64(SeedSequence(seed, spawn_key=(chain_index,))) (full state and increment)"
+            elif dict(mm.rng.bit_generator.state["state"]) != st:
+                pred = "a VI model and an MCMC model get different streams for the same (seed, n_chains, chain_index)"
+            elif handed_vi(seed, nc, ci)[2] != st:
                 pred = "two runs with the same (seed, n_chains, chain_index) hand different streams to the VI model"
             elif handed_vi(seed + 1, nc, ci)[2] == st:
                 pred = "the VI model's stream does not depend on the seed"
+            elif handed_vi(seed, nc + 3, ci)[2] != st:
+                pred = "the VI model's stream of chain %d changes with n_chains" % ci
             else:
-                same = [cj for cj in range(nc) if cj != ci and handed_vi(seed, nc, cj)[2] == st]
+                others = {cj: handed_vi(seed, nc, cj)[2] for cj in range(nc) if cj != ci}
+                same = [cj for cj, sj in others.items() if sj == st]
                 if same:
                     pred = ("chains %d and %d of seed %d (n_chains %d) hand the VI model the SAME stream (full PCG64 state and increment equal): "
                             "not a different, non-overlapping stream for every other chain index" % (ci, same[0], seed, nc))
-                    sig = "vi-chains-share-generator"
-        return dict(wire=[0, 1, seed, [nc], [ci], [0], [1], n, 0, n], impl=out, pred=pred, sig=sig,
+                elif len({sj["inc"] for sj in others.values()} | {st["inc"]}) != nc:
+                    pred = "two chains of seed %d hand the VI model generators on the same PCG64 increment (the same underlying sequence)" % seed
+        return dict(wire=[0, 1, seed, [nc], [ci], [0], [1], n, 0, n], impl=out, pred=pred,
                     features=["rng", "vi", "n_chains=1" if nc == 1 else "n_chains>1"], cmp=cmp_result())
 
     if kind == "rng":
@@ -505,29 +532,34 @@ def run(desc):
 
     if kind == "vi":
         seed, n, ret, len0 = desc["seed"], desc["n"], desc["returned"], desc["len0"]
+        nc, ci = desc.get("nc", 1), desc.get("ci", 0)
         m = V(returned=ret)
         h = Holder(n, m.events)
         h.thetas = [("pre", i) for i in range(len0)]
 
         def go():
-            r = batchie.sampling.sample(model=m, results=h, seed=seed, n_chains=1, chain_index=0, n_burnin=10, thin=2)
+            r = batchie.sampling.sample(model=m, results=h, seed=seed, n_chains=nc, chain_index=ci, n_burnin=10, thin=2)
             assert r is h
             return [list(m.events), len(h.thetas)]
 
         out = impl_call(go)
         pred = None
-        if seed >= 0 and ret == n and len0 == 0:
+        if seed >= 0 and ret == n and len0 == 0 and None not in (nc, ci) and 0 <= ci < nc:
             if isinstance(out, ImplError):
                 pred = "VI sampling raised %r" % (out,)
             else:
                 if m.sample_calls != [n]:
                     pred = "VI model asked %r instead of once for %d samples" % (m.sample_calls, n)
-                elif m.events != [[0], [1, seed, []], [4, n]] + [[3]] * n:
-                    pred = "VI trace is not reset, set_rng(default_rng(seed)), sample(n), n records"
+                elif m.events != [[0], [1, seed, [ci]], [4, n]] + [[3]] * n:
+                    pred = "VI trace is not reset, set_rng(default_rng(SeedSequence(seed).spawn(n_chains)[chain_index])), sample(n), n records"
                 elif h.thetas != [("vi", i) for i in range(n)] or not h.is_complete:
                     pred = "VI samples not stored in order / holder not complete"
         feats = ["vi"] + (["trivial"] if n == 0 else []) + (["malformed"] if desc.get("malformed") else [])
-        return dict(wire=[0, 1, seed, [], [], [], [], n, len0, ret], impl=out, pred=pred, features=feats, cmp=cmp_result())
+        if isinstance(out, ImplError):
+            feats.append("refused")
+        # the schedule arguments n_burnin / thin cross as given (10, 2): the VI branch must not read them
+        wire = [0, 1, seed] + [[] if v is None else [v] for v in (nc, ci)] + [[10], [2], n, len0, ret]
+        return dict(wire=wire, impl=out, pred=pred, features=feats, cmp=cmp_result())
 
     # mcmc
     seed, nc, ci, b, t, n, len0 = (desc[x] for x in ("seed", "nc", "ci", "b", "t", "n", "len0"))
